@@ -26,7 +26,11 @@ func relDate(sec int) bson.D { return bson.D{{Key: "$rel", Value: int32(sec)}} }
 func genTTLValue(t *rapid.T, expiry int) interface{} {
 	old := relDate(-(expiry + rapid.SampledFrom([]int{5, 30, 4000, 100000}).Draw(t, "oldm")))
 	fresh := relDate(-expiry + rapid.SampledFrom([]int{5, 30, 4000}).Draw(t, "newm"))
-	switch rapid.IntRange(0, 13).Draw(t, "vk") {
+	switch rapid.IntRange(0, 15).Draw(t, "vk") {
+	case 14:
+		return bson.A{old, old} // a repeated element yields one index entry
+	case 15:
+		return bson.A{old, fresh, old}
 	case 0, 1, 2:
 		return old
 	case 3, 4, 5:
@@ -66,11 +70,14 @@ func genC19(t *rapid.T) bson.D {
 			ttlFields = append(ttlFields, fields[k])
 			ttlExp = append(ttlExp, e)
 		}
-		extra := rapid.SampledFrom([]string{"", "unique", "compound", "partial"}).Draw(t, "extra")
+		extra := rapid.SampledFrom([]string{"", "unique", "compound", "partial", "multikey"}).Draw(t, "extra")
 		ndocs := rapid.IntRange(0, 8).Draw(t, "ndocs")
 		docs := bson.A{}
 		for di := 0; di < ndocs; di++ {
 			d := bson.D{{Key: "_id", Value: int32(di)}, {Key: "k", Value: int32(di)}, {Key: "g", Value: int32(di % 2)}}
+			if extra == "multikey" {
+				d = append(d, bson.E{Key: "tags", Value: rapid.SampledFrom([]interface{}{bson.A{"x", "x"}, bson.A{"x", "y", "x"}, bson.A{}, "x", bson.A{"y"}}).Draw(t, "tags")})
+			}
 			// field t
 			expT := 60
 			if len(ttlExp) > 0 {
@@ -207,6 +214,8 @@ func runC19(c bson.D, x *Ctx) (err error) {
 			_, e = coll.Indexes().CreateOne(ctx, mongo.IndexModel{Keys: bson.D{{Key: "g", Value: int32(1)}, {Key: "k", Value: int32(-1)}}})
 		case "partial":
 			_, e = coll.Indexes().CreateOne(ctx, mongo.IndexModel{Keys: bson.D{{Key: "k", Value: int32(1)}}, Options: options.Index().SetPartialFilterExpression(bson.D{{Key: "g", Value: int32(1)}})})
+		case "multikey":
+			_, e = coll.Indexes().CreateOne(ctx, mongo.IndexModel{Keys: bson.D{{Key: "tags", Value: int32(1)}}})
 		}
 		if e != nil {
 			return fmt.Errorf("harness: extra index failed: %v", e)
